@@ -69,6 +69,25 @@ def c_dropout_aqua(c):
     c_dropout(c)
 
 
+@contract('C13', 'initial-attitude', variants=[dict(f='acc2q'), dict(f='Madgwick.batch'), dict(f='Mahony.batch')], no_crosscheck=True,
+          functions=['orientation.acc2q', 'Madgwick._compute_all', 'Mahony._compute_all'])
+def c_initial(c):
+    """a dropout on the FIRST sample of an IMU history: the initial attitude comes from acc2q, which must return the
+    identity for a zero accelerometer sample (and the batch run must then produce unit quaternions)"""
+    zero = c.arr([0.0, 0.0, 0.0])
+    if c.p['f'] == 'acc2q':
+        q = c.ahrs.common.orientation.acc2q(zero)
+        c.goal_eq('identity', np.asarray(q), c.arr([1.0, 0.0, 0.0, 0.0]))
+        return
+    F_ = getattr(c.ahrs.filters, c.p['f'].split('.')[0])
+    g = c.reals('g', (2, 3)); a1 = c.reals('a', 3)
+    c.assume(ne(dot(a1, a1), 0)); c.assume(ne(dot(g[1], g[1]), 0)); c.assume(ne(dot(g[0], g[0]), 0))
+    acc = np.array([zero, a1])
+    Q = F_(gyr=g, acc=acc).Q
+    c.goal_eq('row0=identity', np.asarray(Q[0]), c.arr([1.0, 0.0, 0.0, 0.0]))
+    c.goal('row1.unit', eq(dot(Q[1], Q[1]), 1))
+
+
 NOT_COVERED = ["estimates return to within normal tolerance after the dropout ends (a convergence statement, see C05)",
                "FKF, UKF, Complementary (batch-only / out of reach of the engine): FKF and UKF divide by the accelerometer norm "
                "without a guard (acc / np.linalg.norm(acc))"]
